@@ -142,3 +142,143 @@ Definition enc_frame (f : frame) : bytes :=
   | FrHeader ch cls weight size _ slots => enc_frame_raw 2 ch (enc_header_payload cls weight size slots)
   | FrBody ch body => enc_frame_raw 3 ch body
   end.
+
+(* ------------------------------------------------------------------ what must be reported *)
+(* The exact report of a conversation given as the frames of its two directions, for
+   conversations in normal form (no recorded finding class is triggered, `normal` below):
+   one item per content message of the client (basic.publish) and of the server
+   (basic.deliver) - method arguments without the reserved ones, the 13 content properties
+   (absent ones at their zero value), the body - with an empty response; one item per reply of
+   the server, paired with the client's request of the same channel.  Written from the
+   property, not from the dissector. *)
+Definition sview := (N * list arg)%type.                      (* class*1000+method (0 = empty), values *)
+Definition sitem := (sview * sview)%type.
+
+Definition spec_reported (cls meth : N) (args : list arg) : list arg :=
+  if (cls =? 10) && (meth =? 40) then firstn 1 args
+  else if ((cls =? 10) && (meth =? 41)) || ((cls =? 20) && ((meth =? 10) || (meth =? 11))) then []
+  else if ((cls =? 40) && (meth =? 10)) || ((cls =? 50) && ((meth =? 10) || (meth =? 20)))
+          || ((cls =? 60) && ((meth =? 20) || (meth =? 40))) then tl args
+  else args.
+
+Definition spec_zero_props : list arg :=
+  [AShortStr []; AShortStr []; ANull; AOctet 0; AOctet 0; AShortStr []; AShortStr []; AShortStr []; AShortStr [];
+   ATime (-62135596800)%Z; AShortStr []; AShortStr []; AShortStr []].
+Fixpoint spec_props (slots : list (option arg)) (dflt : list arg) : list arg :=
+  match slots, dflt with
+  | s :: slots', d :: dflt' => (match s with Some a => a | None => d end) :: spec_props slots' dflt'
+  | _, _ => []
+  end.
+
+(* requests a client sends and the server answers with method id + 1 *)
+Definition spec_request (cls meth : N) : bool :=
+  ((cls =? 10) && ((meth =? 40) || (meth =? 50))) || ((cls =? 20) && (meth =? 10)) || ((cls =? 40) && (meth =? 10))
+  || ((cls =? 50) && ((meth =? 10) || (meth =? 20))) || ((cls =? 60) && ((meth =? 20) || (meth =? 30))).
+Definition spec_content (cls meth : N) : bool := (cls =? 60) && ((meth =? 40) || (meth =? 50) || (meth =? 60) || (meth =? 71)).
+
+(* content messages of one direction whose method is `want` (40 publish, 60 deliver) *)
+Fixpoint spec_messages (want : N) (fs : list frame) (cur : option (N * N * list arg)) (props : option (list arg)) : list sitem :=
+  match fs with
+  | [] => []
+  | FrMethod ch cls meth args :: rest =>
+      spec_messages want rest (if spec_content cls meth then Some (ch, meth, spec_reported cls meth args) else None) None
+  | FrHeader ch _ _ _ _ slots :: rest =>
+      match cur with
+      | Some (ch', _, _) => if ch =? ch' then spec_messages want rest cur (Some (spec_props slots spec_zero_props)) else spec_messages want rest cur props
+      | None => spec_messages want rest cur props
+      end
+  | FrBody ch body :: rest =>
+      match cur, props with
+      | Some (ch', meth, a), Some p =>
+          if (ch =? ch') && (meth =? want) then ((60000 + meth, a ++ p ++ [ALongStr body]), (0, [])) :: spec_messages want rest None None
+          else spec_messages want rest None None
+      | _, _ => spec_messages want rest cur props
+      end
+  | _ :: rest => spec_messages want rest cur props
+  end.
+
+Fixpoint find_request (ch cls meth : N) (cfs : list frame) : option (list arg) :=
+  match cfs with
+  | [] => None
+  | FrMethod ch' cls' meth' args :: rest => if (ch =? ch') && (cls =? cls') && (meth =? meth') then Some args else find_request ch cls meth rest
+  | _ :: rest => find_request ch cls meth rest
+  end.
+
+(* server direction, in order: replies paired with their requests, and deliveries *)
+Fixpoint spec_server (sfs cfs : list frame) (cur : option (N * N * list arg)) (props : option (list arg)) : list sitem :=
+  match sfs with
+  | [] => []
+  | FrMethod ch cls meth args :: rest =>
+      let next := spec_server rest cfs (if spec_content cls meth then Some (ch, meth, spec_reported cls meth args) else None) None in
+      if (1 <=? meth) && spec_request cls (meth - 1) then
+        match find_request ch cls (meth - 1) cfs with
+        | Some rq => ((cls * 1000 + (meth - 1), spec_reported cls (meth - 1) rq), (cls * 1000 + meth, spec_reported cls meth args)) :: next
+        | None => next
+        end
+      else next
+  | FrHeader ch _ _ _ _ slots :: rest =>
+      match cur with
+      | Some (ch', _, _) => if ch =? ch' then spec_server rest cfs cur (Some (spec_props slots spec_zero_props)) else spec_server rest cfs cur props
+      | None => spec_server rest cfs cur props
+      end
+  | FrBody ch body :: rest =>
+      match cur, props with
+      | Some (ch', meth, a), Some p =>
+          if (ch =? ch') && (meth =? 60) then ((60060, a ++ p ++ [ALongStr body]), (0, [])) :: spec_server rest cfs None None
+          else spec_server rest cfs None None
+      | _, _ => spec_server rest cfs cur props
+      end
+  | _ :: rest => spec_server rest cfs cur props
+  end.
+
+Definition spec_report (cfs sfs : list frame) : list sitem := spec_messages 40 cfs None None ++ spec_server sfs cfs None None.
+
+(* normal form: what a direction may contain so that no recorded finding class is triggered.
+   Content: a content method is followed on its direction - heartbeats apart - by its header
+   (same channel, body size 1..512) and exactly one body frame of that size; no other header
+   or body frames.  Methods: the client sends no reply and no handshake method, the server no
+   request and no handshake method; a pairing key (channel, class, method family) is used by at
+   most one reported method per direction. *)
+Inductive cstate := CIdle | CWantHeader (ch : N) | CWantBody (ch size : N).
+Fixpoint content_ok (fs : list frame) (st : cstate) : bool :=
+  match fs with
+  | [] => match st with CIdle => true | _ => false end
+  | FrProto :: rest | FrHeartbeat _ :: rest => content_ok rest st
+  | FrMethod ch cls meth _ :: rest =>
+      match st with
+      | CIdle => content_ok rest (if spec_content cls meth then CWantHeader ch else CIdle)
+      | _ => false
+      end
+  | FrHeader ch _ _ size _ _ :: rest =>
+      match st with
+      | CWantHeader ch' => (ch =? ch') && (1 <=? size) && (size <=? 512) && content_ok rest (CWantBody ch size)
+      | _ => false
+      end
+  | FrBody ch body :: rest =>
+      match st with
+      | CWantBody ch' size => (ch =? ch') && (Blen body =? size) && content_ok rest CIdle
+      | _ => false
+      end
+  end.
+
+Definition spec_handshake (cls meth : N) : bool := (cls =? 10) && ((meth =? 10) || (meth =? 11) || (meth =? 30) || (meth =? 31)).
+Definition spec_reply (cls meth : N) : bool := (1 <=? meth) && spec_request cls (meth - 1).
+
+Fixpoint keys (pick : N -> N -> bool) (fs : list frame) : list (N * N * N) :=
+  match fs with
+  | [] => []
+  | FrMethod ch cls meth _ :: rest => if pick cls meth then (ch, cls, meth - meth mod 10) :: keys pick rest else keys pick rest
+  | _ :: rest => keys pick rest
+  end.
+Definition key_eqb (a b : N * N * N) : bool :=
+  let '(a1, a2, a3) := a in let '(b1, b2, b3) := b in (a1 =? b1) && (a2 =? b2) && (a3 =? b3).
+Fixpoint distinct (l : list (N * N * N)) : bool :=
+  match l with [] => true | k :: l' => negb (existsb (key_eqb k) l') && distinct l' end.
+Definition methods_ok (allowed : N -> N -> bool) (fs : list frame) : bool :=
+  forallb (fun f => match f with FrMethod _ cls meth _ => negb (spec_handshake cls meth) && allowed cls meth | _ => true end) fs.
+
+Definition normal (cfs sfs : list frame) : bool :=
+  content_ok cfs CIdle && content_ok sfs CIdle
+  && methods_ok (fun c m => negb (spec_reply c m) && negb ((c =? 60) && (m =? 60))) cfs
+  && methods_ok (fun c m => negb (spec_request c m) && negb ((c =? 60) && (m =? 40))) sfs
+  && distinct (keys spec_request cfs) && distinct (keys spec_reply sfs).
